@@ -4,6 +4,7 @@
   front end that wraps them and the decompressor's acceptance arithmetic.
 -/
 import WowVerif.Model.C03Codec
+import WowVerif.Lemmas.C03Adpcm
 import WowVerif.Lemmas.C03
 import WowVerif.Lemmas.C03Sparse
 namespace Wv.C03
@@ -163,5 +164,34 @@ example : sparseDecompress (sparseCompress [7, 0, 0, 0, 9, 0, 8, 0, 0]) 9 = some
 theorem selector_examples :
     selectorSupported 0x02 = true ∧ selectorSupported 0x12 = true ∧ selectorSupported 0x42 = true ∧
     selectorSupported 0x01 = false ∧ selectorSupported 0x04 = false ∧ selectorSupported 0x0A = false := by decide
+
+/-! ## the lossy selectors: in-tree IMA ADPCM, mono and stereo (Model.C03Adpcm) -/
+
+/-- ADPCM PRESERVES LENGTH AND ACCEPTS ITS OWN OUTPUT: for every buffer the encoder accepts (mono or stereo, every
+    level), the decoder accepts the encoder's stream and returns exactly as many bytes as went in -/
+theorem adpcm_length (n level : Nat) (hn : n = 1 ∨ n = 2) (hlv : level ≤ 32) (x enc : Bytes) (hx : x ≠ [])
+    (h : Adpcm.encode n level x = some enc) : ∃ out, Adpcm.decode n enc x.length = some out ∧ out.length = x.length :=
+  Adpcm.decode_encode_length n level hn hlv x enc hx h
+
+/-- … AND WHAT COMES BACK, SAMPLE FOR SAMPLE: the initial samples unchanged, then sample `k` through the coder pair of
+    channel `k mod n` (`roundLoop`): step-size markers never shift a sample to the other channel -/
+theorem adpcm_functional (n level : Nat) (hn : n = 1 ∨ n = 2) (hlv : level ≤ 32) (x enc : Bytes) (hx : x ≠ [])
+    (h : Adpcm.encode n level x = some enc) :
+    Adpcm.decode n enc x.length = some (((Adpcm.samplesOf x).take n).flatMap Adpcm.sampleBytes ++
+      (Adpcm.roundLoop level (if level = 0 then 0 else level - 1) (((Adpcm.samplesOf x).take n).map Adpcm.initCh)
+        (((Adpcm.samplesOf x).take n).map Adpcm.initCh) n ((Adpcm.samplesOf x).drop n)).flatMap Adpcm.sampleBytes) :=
+  Adpcm.decode_encode n level hn hlv x enc hx h
+
+/-- CHANNEL INTERLEAVING IS PRESERVED: the stereo codec on an interleaved signal returns the interleaving of what the
+    mono codec returns for each channel alone — no channel's content influences the other's -/
+theorem adpcm_stereo_is_two_monos (level sh : Nat) (e0 e1 d0 d1 : Adpcm.Ch) (k : Nat) (hk : k % 2 = 0) (l r : List Int)
+    (hlen : l.length = r.length) :
+    Adpcm.roundLoop level sh [e0, e1] [d0, d1] k (Adpcm.interleave l r)
+      = Adpcm.interleave (Adpcm.roundLoop level sh [e0] [d0] 0 l) (Adpcm.roundLoop level sh [e1] [d1] 0 r) :=
+  Adpcm.stereo_is_two_monos level sh e0 e1 d0 d1 k hk l r hlen
+
+/-! non-vacuity: a stereo buffer with a click in the left channel (step-up markers in the stream) -/
+example : (Adpcm.encode 2 5 [0, 0, 0xE8, 3, 0x30, 0x75, 0xE8, 3, 0, 0, 0xE8, 3]).map (·.length) = some 15 := by decide +kernel
+example : ((Adpcm.encode 2 5 [0, 0, 0xE8, 3, 0x30, 0x75, 0xE8, 3, 0, 0, 0xE8, 3]).bind fun e => Adpcm.decode 2 e 12).map (·.length) = some 12 := by decide +kernel
 
 end Wv.C03
